@@ -17,7 +17,7 @@ from models import bencode_ref as REF
 ID = "C19"
 ENGINE = "netsim"
 LEVEL = "fault_enumeration"
-TIERS = {"quick": {"runs": 2400, "timeout": 1500}, "thorough": {"runs": 40000, "timeout": 7200,
+TIERS = {"quick": {"runs": 3200, "timeout": 1500}, "thorough": {"runs": 80000, "timeout": 7200,
                                                                 "lane_timeout": 2400}}
 EST_STEPS = [100, 400, 1500]
 MAX_STEPS = 200000
